@@ -242,12 +242,60 @@ def make_script(sspec, hashes, kinds):
 
 
 # --- one case ----------------------------------------------------------------------------------------------------------
-def new_context(bodies):
+D_REG = ('registering a constant fails although every hash it names belongs to the registered set '
+         '(the order of registration must not matter for an acyclic reference graph)')
+D_CTOR = 'ExecutionContext(global_constants=mapping) fails for a mapping from Tezos expression hashes to expressions'
+D_WORLD = ('expansion depends on how the registry was filled (order of registration / mapping handed to the '
+           'constructor): a registered constant is not expanded as the reference expands it')
+NV_DANGLING = ('registration of a constant naming a hash that is not in the registered set is refused '
+               '(Octez refuses it too; not judged)')
+
+
+def register(ctx, body):
+    """One observed call of the real register_global_constant: -> None | 'Type: message'."""
+    try:
+        ctx.register_global_constant(copy.deepcopy(body))
+    except Exception as e:  # noqa
+        return f'{type(e).__name__}: {e}'
+    return None
+
+
+def build_world(bodies, hashes, mode='register', order=None):
+    """Builds a context holding the constants `order` (default: all, dependency first).  Every call into pytezos on the
+    way is an observation, never a harness error: -> (context | None, failure | None); failure = (index of the constant
+    whose registration raised | None for the constructor, 'Type: message')."""
     from pytezos.context.impl import ExecutionContext
-    ctx = ExecutionContext()
-    for b in bodies:
-        ctx.register_global_constant(copy.deepcopy(b))
-    return ctx
+    order = list(range(len(bodies))) if order is None else list(order)
+    try:
+        if mode == 'dict':
+            return ExecutionContext(global_constants={hashes[i]: copy.deepcopy(bodies[i]) for i in order}), None
+        ctx = ExecutionContext()
+    except Exception as e:  # noqa
+        return None, (None, f'{type(e).__name__}: {e}')
+    for i in order:
+        err = register(ctx, bodies[i])
+        if err:
+            return None, (i, err)
+    return ctx, None
+
+
+def judge_build_failure(failure, bodies, table, what):
+    """A registration that raises violates C33 iff every hash the constant names (through other constants too) is in the
+    set being registered (`table`); a constant with a dangling hash may be refused (no verdict).  -> result tuple."""
+    i, err = failure
+    if i is None:
+        return (f'{what}: the constructor raises', D_CTOR, f'{what}: {err} registry={table}', False)
+    try:
+        ref.expand(bodies[i], table)
+    except ref.UnknownConstant:
+        return (f'{what}: {NV_DANGLING}', None, '', True)
+    return (f'{what}: registration of a constant whose references are all in the set RAISES', D_REG,
+            f'{what}: registering {bodies[i]} raised {err}; set being registered={list(table.values())}', False)
+
+
+def new_context(bodies):
+    """Dependency-first registration of a whole set (used by replay / observe): -> (ctx | None, failure | None)."""
+    return build_world(bodies, [ref.expr_hash(b) for b in bodies])
 
 
 def classify(script, table, hashes):
@@ -272,9 +320,17 @@ def run_case(case, ctx=None):
     bodies, hashes = build_set(case['set'], alpha)
     kinds = [c[0] for c in case['set']]
     table = dict(zip(hashes, bodies))
-    if ctx is None:
-        ctx = new_context(bodies)
     entry = case.get('entry', 'resolve')
+    if entry == 'history':
+        return run_history(case, bodies, hashes, kinds, table)
+    if entry == 'world':
+        return run_world(case, bodies, hashes, kinds, table)
+    if ctx is None or entry == 'build':
+        ctx, failure = build_world(bodies, hashes)
+        if failure:
+            return [judge_build_failure(failure, bodies, table, 'dependency-first registration')]
+    if entry == 'build':
+        return [('dependency-first registration: every constant accepted', None, '', False)]
     out = []
 
     if entry == 'keys':
@@ -320,9 +376,6 @@ def run_case(case, ctx=None):
             res = 'unknown'
         return [(f'nested constant named by the hash of its expanded form (Octez keying): {res} to pytezos (not judged)',
                  None, '', True)]
-
-    if entry == 'history':
-        return run_history(case, bodies, hashes, kinds, table)
 
     script = make_script(case['script'], hashes, kinds)
     malformed = [c[1] for _, c in case['script'] if isinstance(c, list)]
